@@ -8,7 +8,7 @@
    sequences (with arbitrary requests on other keys, outages and clock advances in between). *)
 From Coq Require Import List ZArith String Bool.
 From GZ Require Import Lib.RedisStore C03.Model C03.GenProofs C03.ProofsBucket C03.ProofsPeriod
-                       C03.ProofsPeriodSpec C03.ProofsToken C03.Proofs C03.ProofsMore C03.Monitor C03.ProofsMonitor.
+                       C03.ProofsPeriodSpec C03.ProofsToken C03.Proofs C03.ProofsMore C03.Monitor C03.MonitorN C03.ProofsMonitor.
 From GZgen Require Lua_period Lua_token C03Consts.
 Import ListNotations.
 Open Scope string_scope.
@@ -251,6 +251,28 @@ Theorem monitor_never_stuck : forall n sched,
    let s' := mrun false s [AMon; AMon; AMon; AMon] in m_alive s' = true /\ m_mon s' = MNone).
 Proof. exact never_stuck_all. Qed.
 Print Assumptions monitor_never_stuck.
+
+(* SEVERAL LIMITERS ON ONE STORE (state shared between instances).  On HEAD the limiters of a store
+   share nothing but its reachability: each has its own flags, lock and monitor.  [nstep] moves one
+   limiter's thread or the store.  FRAME: a step of limiter j does not touch limiter k; limiter k's
+   state after ANY system schedule is its own run on its part of the schedule; hence for every
+   limiter, whatever the others do: redisAlive = 0 only while ITS recovery is pending, quiescent =>
+   redisAlive = 1, and one successful tick of ITS monitor brings it back.
+   The one-monitor-per-store variant is refuted: Pinned.shared_monitor_orphans_a_waiter_refuted. *)
+Theorem limiters_do_not_interfere : forall fast s j a k,
+  j <> k -> nth_error (nstep fast s (NLim j a)) k = nth_error s k.
+Proof. exact nstep_frame. Qed.
+Print Assumptions limiters_do_not_interfere.
+
+Theorem each_limiter_never_stuck : forall threads sched k n,
+  nth_error threads k = Some n ->
+  exists m, nth_error (nrun false (ninit threads) sched) k = Some m /\
+    (m_alive m = false -> (1 <= recovery_pending m)%nat) /\
+    (quiescent m = true -> m_alive m = true) /\
+    (m_up m = true -> forallb is_idle (m_reqs m) = true ->
+     let m' := mrun false m [AMon; AMon; AMon; AMon] in m_alive m' = true /\ m_mon m' = MNone).
+Proof. exact each_limiter_never_stuck_all. Qed.
+Print Assumptions each_limiter_never_stuck.
 
 (* ---- non-vacuity ---- *)
 Definition ex_cfg := mkCfg 5 2 (BStr "{tk}.tokens") (BStr "{tk}.ts").   (* 2*burst < rate *)
